@@ -45,9 +45,17 @@ def eval_part(part, binary, inputs, work, tag):
     reported per input."""
     if not inputs:
         return dict(obs=[], corr=[], oracle=[], known=[], branches=[], terms=0)
-    runner = C.run_harness_parallel if part.parallel else C.run_harness
-    obs = runner(binary, part.family, [i["input"] for i in inputs], args=part.harness_args,
-                 crash_obs=getattr(part, "crash_obs", None))
+    if getattr(part, "one_per_process", False):
+        # every case in a harness process of its own: a panic on a background goroutine of the
+        # code under test is then attributed to the case that caused it
+        from concurrent.futures import ThreadPoolExecutor
+        with ThreadPoolExecutor(max_workers=max(1, C.NCPU // 2)) as ex:
+            obs = list(ex.map(lambda i: C.run_harness(binary, part.family, [i["input"]], args=part.harness_args,
+                                                       crash_obs=getattr(part, "crash_obs", None))[0], inputs))
+    else:
+        runner = C.run_harness_parallel if part.parallel else C.run_harness
+        obs = runner(binary, part.family, [i["input"] for i in inputs], args=part.harness_args,
+                     crash_obs=getattr(part, "crash_obs", None))
     terms, owner = [], []
     for idx, (i, o) in enumerate(zip(inputs, obs)):
         ts = part.to_coq(i["input"], o)
